@@ -19,7 +19,7 @@ import ast
 
 from .. import algebra as al
 from ..astutil import dotted, src, walk_local, local_assignments, calls, dominating_guards, op_test, conjuncts
-from ..report import AnalysisError
+from ..report import AnalysisError, Frag
 
 EXTRACTORS = {
     "const": "optyx.analysis:_extract_constant_impl",
@@ -518,7 +518,7 @@ def _senses(prog, rep):
     missing = {"==", "<=", ">="} - seen
     rep.pin('extract_constraints', "R05.4", "extract_constraints", not missing, "all three senses are handled" if not missing else f"sense(s) {sorted(missing)} fall through silently: those constraints vanish from the LP", loc=ec.loc, detail="all-senses")
     s = src(ec.node)
-    blocks = "A_ub = np.array(ub_rows, dtype=np.float64) if ub_rows else None" in s and "b_ub = np.array(ub_rhs, dtype=np.float64) if ub_rhs else None" in s and "A_eq = np.array(eq_rows, dtype=np.float64) if eq_rows else None" in s and "b_eq = np.array(eq_rhs, dtype=np.float64) if eq_rhs else None" in s and "return (A_ub, b_ub, A_eq, b_eq)" in s
+    blocks = Frag(s, "A_ub = np.array(ub_rows, dtype=np.float64) if ub_rows else None", "b_ub = np.array(ub_rhs, dtype=np.float64) if ub_rhs else None", "A_eq = np.array(eq_rows, dtype=np.float64) if eq_rows else None", "b_eq = np.array(eq_rhs, dtype=np.float64) if eq_rhs else None", "return (A_ub, b_ub, A_eq, b_eq)")
     rep.pin('extract_constraints', "R05.4", "extract_constraints", blocks, "matrices are assembled from their own row/rhs lists and returned in the order (A_ub, b_ub, A_eq, b_eq)" if blocks else "the row/rhs lists are not assembled into (A_ub, b_ub, A_eq, b_eq) one-to-one", loc=ec.loc, detail="assembly")
 
 
@@ -526,14 +526,14 @@ def _alignment(prog, rep):
     L = prog.cls("LinearProgramExtractor")
     eo = L.methods.get("extract_objective")
     s = src(eo.node)
-    ok = "variables = problem.variables" in s and "var_index = {var.name: i for i, var in enumerate(variables)}" in s and "c = extract_all_linear_coefficients(problem.objective, var_index, n)" in s and "return (c, sense, variables)" in s
+    ok = Frag(s, "variables = problem.variables", "var_index = {var.name: i for i, var in enumerate(variables)}", "c = extract_all_linear_coefficients(problem.objective, var_index, n)", "return (c, sense, variables)")
     rep.pin('LP alignment', "R05.5", "extract_objective", ok, "columns = positions in problem.variables; the same list is returned" if ok else "the cost vector's column map is not {v.name: i} over problem.variables, or another list is returned", loc=eo.loc, detail="columns")
     ec = L.methods.get("extract_constraints")
     ok = "var_index = {var.name: i for i, var in enumerate(variables)}" in src(ec.node) and "n = len(variables)" in src(ec.node)
     rep.pin('LP alignment', "R05.5", "extract_constraints", ok, "rows use the column map of the list passed in" if ok else "constraint rows are not built over the variable list passed in", loc=ec.loc, detail="columns")
     eb = L.methods.get("extract_bounds")
     sb = src(eb.node)
-    ok = "for var in variables" in sb and "bounds.append((lb, ub))" in sb and "lb = var.lb" in sb and "ub = var.ub" in sb
+    ok = Frag(sb, "for var in variables", "bounds.append((lb, ub))", "lb = var.lb", "ub = var.ub")
     rep.pin('LP alignment', "R05.5", "extract_bounds", ok, "bounds[i] = (lb, ub) of variables[i]" if ok else "bounds are not (var.lb, var.ub) per variable in order", loc=eb.loc, detail="bounds")
     from .common import bound_expr_problem
     envb = {n.targets[0].id: n.value for n in walk_local(eb.node) if isinstance(n, ast.Assign) and isinstance(n.targets[0], ast.Name)}
